@@ -1,15 +1,17 @@
 SPECIFICATION MCSpec
 CONSTANTS
   NP = 4
-  Lens = {1, 2, 3, 4, 5, 6, 7, 8}
+  Lens = {2, 3, 4, 5, 6, 7, 8}
   PLen = 4
   PMin = 2
   SLen = 2
   TLen = 6
   Kinds = {"over", "under"}
   Rfs = {0, 1, 2, 3}
-  Isos = {FALSE, TRUE}
+  Isos = {FALSE}
   Skips = {FALSE, TRUE}
-  Bads = {{}, {1}, {2}}
+  Bads = {{}, {1}, {2}, {1, 2}, {2, 3}}
+  Longs = {FALSE, TRUE}
+  RootSet = {0}
 INVARIANTS MCTypeOK MCSound MCSoundSkip MCComplete MCCompleteSkip MCNeverSplit MCBadAlone MCOthersUnaffected MCFilterHonoured
 CHECK_DEADLOCK FALSE
